@@ -38,6 +38,12 @@ func (w *world) observeCall(sc *shuffleCall, site string) {
 	w.stCalls++
 	if sc.err != nil {
 		c.Probe("updatenodelists-error")
+		for _, s := range w.shardIDs() {
+			if len(sc.eligible[s])+len(sc.waiting[s]) < w.minOf(s) {
+				c.Probe("shard-below-minimum-before")
+				break
+			}
+		}
 		return
 	}
 	requested := len(sc.unstake) + len(sc.additional)
@@ -129,8 +135,16 @@ func (w *world) oracleC12(sc *shuffleCall, site string) {
 			msg := fmt.Sprintf("epoch %d: UpdateNodeLists reports %q as leaving, but it was neither eligible nor waiting before (unstake=%q additional=%q)", sc.epoch, k, []string(sc.unstake), []string(sc.additional))
 			if in == 0 {
 				// postponed to the end of the run so that this kind can never hide another C12 kind
-				w.deferred = append(w.deferred, deferredViolation{step: c.CurStep, prop: "C12", kind: kind, site: site, msg: msg})
 				c.Probe("unknown-key-reported-leaving")
+				dup := false
+				for _, d := range w.deferred {
+					if d.kind == kind && d.site == site {
+						dup = true
+					}
+				}
+				if !dup {
+					w.deferred = append(w.deferred, deferredViolation{step: c.CurStep, prop: "C12", kind: kind, site: site, msg: msg})
+				}
 			} else {
 				c.Violate("C12", kind, site, "%s", msg)
 				return
@@ -339,13 +353,15 @@ func (w *world) checkGroup(n *node, q groupQuery, rnd []byte, round uint64, site
 		c.Violate("C15", "wrong-size", site, "node %d: group for (rand=%x, round=%d, shard=%s, epoch=%d) has %d members, configured size %d", n.id, rnd, round, shardName(q.shard), q.epoch, len(keys), want)
 		return nil, false
 	}
-	lists, ok := w.listsOf(n, q.epoch)
-	if !ok {
+	el, err := n.coord.GetAllEligibleValidatorsPublicKeys(q.epoch)
+	if err != nil {
 		return nil, false
 	}
+	var shardEligible vlist
 	eligible := map[string]bool{}
-	for _, k := range lists.eligible[q.shard] {
-		eligible[k] = true
+	for _, k := range el[q.shard] {
+		eligible[string(k)] = true
+		shardEligible = append(shardEligible, string(k))
 	}
 	seen := map[string]bool{}
 	for _, k := range keys {
@@ -355,11 +371,11 @@ func (w *world) checkGroup(n *node, q groupQuery, rnd []byte, round uint64, site
 		}
 		seen[k] = true
 		if !eligible[k] {
-			c.Violate("C15", "member-not-eligible", site, "node %d: group for (rand=%x, round=%d, shard=%s, epoch=%d) contains %q which is not in that shard's eligible list of that epoch %q", n.id, rnd, round, shardName(q.shard), q.epoch, k, []string(lists.eligible[q.shard]))
+			c.Violate("C15", "member-not-eligible", site, "node %d: group for (rand=%x, round=%d, shard=%s, epoch=%d) contains %q which is not in that shard's eligible list of that epoch %q", n.id, rnd, round, shardName(q.shard), q.epoch, k, []string(shardEligible))
 			return nil, false
 		}
 	}
-	if len(lists.eligible[q.shard]) == want {
+	if len(shardEligible) == want {
 		c.Probe("group-takes-whole-eligible-list")
 	}
 	return keys, true
